@@ -153,7 +153,7 @@ class C03(Prop):
     def strategy(self, tier):
         return cases(tier)
 
-    known_matchers = {}
+    known_matchers = {"F27": lambda spec, sig, msg: sig == "observe.distance.common_prefactor_ignored"}
 
     def run_case(self, case):
         r = Result()
